@@ -26,3 +26,23 @@ func (n *BitcoinNode) VerifRun(ctx context.Context, connection net.Conn,
 
 	return n.run(ctx, interrupt)
 }
+
+// VerifStartBlockSync marks the startup delay as complete and triggers block synchronisation, as
+// the manager's Run does when its startup timer fires.
+func (m *NodeManager) VerifStartBlockSync(ctx context.Context) {
+	m.markStartupDelayComplete(ctx)
+}
+
+// VerifWaitBlockSync waits until no block synchronisation thread is running.
+func (m *NodeManager) VerifWaitBlockSync() {
+	m.syncBlocksWait.Wait()
+}
+
+// VerifStopBlockSync stops a running block synchronisation thread.
+func (m *NodeManager) VerifStopBlockSync(ctx context.Context) {
+	m.blockManagerLock.Lock()
+	if m.blockManagerThread != nil {
+		m.blockManagerThread.Stop(ctx)
+	}
+	m.blockManagerLock.Unlock()
+}
